@@ -55,7 +55,7 @@ def parse_coq_term(s):
         if k == "id":
             if v == "true": return True
             if v == "false": return False
-            return Ctor(v)
+            return Ctor(v.rsplit(".", 1)[-1])
         if (k, v) == ("p", "("):
             if peek() == ("p", ")"): take(); return ()
             items = [term()]
@@ -121,7 +121,7 @@ def run(cmd, timeout, cwd=None, env=None):
     except subprocess.TimeoutExpired as e:
         return 124, (e.stdout or "") + "\nTIMEOUT after %ss: %s" % (timeout, " ".join(cmd))
 
-def coq_eval(imports, terms, workdir, tag, timeout=600, shard=400):
+def coq_eval(imports, terms, workdir, tag, timeout=300, shard=250):
     """Evaluate Gallina terms with vm_compute; returns a list of parse trees (or ('error', text))."""
     os.makedirs(workdir, exist_ok=True)
     shards = [terms[i:i + shard] for i in range(0, len(terms), shard)]
@@ -340,6 +340,7 @@ class Property:
     quick_budget = 400
     thorough_budget = 20000
     search_factor = 5           # extra oracle-only budget when an obligation / the correspondence breaks
+    level_text = ""; level_note = ""; technique = "Coq proof over executable model + translator/correspondence tie"; design_ref = "DESIGN.md"
 
     def gen_cases(self, tier, rng, n):
         """yield (stream, input) — input must be JSON-able"""
